@@ -34,6 +34,11 @@ type c07Case struct {
 	// Hooks: the cron state hooks are installed, as sys.System does (they
 	// look at the stored item whenever one is written or removed).
 	Hooks bool `json:"hooks,omitempty"`
+	// Strict (the C08 reading): an item that has expired is deleted, and
+	// what depended on it with it - also when nobody has looked since and
+	// the id is then written again.  (Without it the dependents of an
+	// expired, unobserved, overwritten item are unspecified.)
+	Strict bool `json:"strict,omitempty"`
 }
 
 // slowStore makes every storage write take (virtual) time, so that the clock
@@ -312,11 +317,18 @@ func runC07(c c07Case) *vlib.Outcome {
 					it.ExpLo, it.ExpHi = Elo, Ehi
 				}
 				if old, have := ml.Items[x.Id]; have && old.live(floorNow) != 1 {
-					// overwriting an expired, never observed item:
-					// it (and its dependents) may or may not have
-					// been purged before
-					for _, d := range ml.dependents(x.Id) {
-						ml.markUnspecClosure(d)
+					if c.Strict && old.live(floorNow) == 0 && !ml.Unspec[x.Id] {
+						// the old item was deleted by its expiry, and
+						// its dependents with it
+						expireCascade(x.Id, old.ExpLo)
+						o.Label("expired-item-overwritten")
+					} else {
+						// overwriting an expired, never observed item:
+						// it (and its dependents) may or may not have
+						// been purged before
+						for _, d := range ml.dependents(x.Id) {
+							ml.markUnspecClosure(d)
+						}
 					}
 				}
 				ml.put(x.Id, it)
@@ -432,4 +444,14 @@ func runC07(c c07Case) *vlib.Outcome {
 
 func TestC07(t *testing.T) {
 	vlib.Check(t, "C07", genC07, runC07)
+}
+
+// TestC08Expiry: the same histories read strictly (see c07Case.Strict): the
+// cascade of a deletion by expiry does not depend on anybody having looked.
+func TestC08Expiry(t *testing.T) {
+	vlib.Check(t, "C08", func(t *rapid.T) c07Case {
+		c := genC07(t)
+		c.Strict = true
+		return c
+	}, runC07)
 }
